@@ -249,18 +249,18 @@ class C14(Check):
                 raise
             self.after_optimise(out, case['opt'], prob, res2, kind2, m1, o, pick, tag='_second')
             optimizer.undo()
-            o.update()
+            self.settle(o)
             diff = state_close(lens_state(o), snap1, 1e-10)
             out.expect('undo_takes_back_the_last_run', diff is None, diff=diff, opt=case['opt'])
             optimizer.undo()
-            o.update()
+            self.settle(o)
             diff = state_close(lens_state(o), snap0, 1e-10)
             out.expect('second_undo_restores_the_start', diff is None, diff=diff, opt=case['opt'])
             out.close('undo_restores_the_merit', float(prob.sum_squared()), m0, rtol=1e-7, atol=self.noise(m0))
         else:
             # 4. undo restores the lens
             optimizer.undo()
-            o.update()          # documented way to bring pickups/solves in line after an edit
+            self.settle(o)
             diff = state_close(lens_state(o), snap0, 1e-10)
             out.expect('undo_restores_the_lens', diff is None, diff=diff, opt=case['opt'])
             m_undo = float(prob.sum_squared())
@@ -293,6 +293,14 @@ class C14(Check):
         if not reuse:
             self.last_optimizer = cls(prob)
         return quiet(self.last_optimizer.optimize, **kw), kind
+
+    def settle(self, o):
+        """update(): the documented way to bring pickups and solves in line after an edit.  With a solve it is called
+        twice: the solve moves the surface by a difference, so coming back from a far excursion of the optimiser (image
+        surface 2e7 mm away) the first pass carries the round-off of that distance (2e-9 mm), the second removes it."""
+        o.update()
+        if self.solve_on:
+            o.update()
 
     def noise(self, m):
         """round-off allowance on a merit value m = sum (w (v - t))^2 whose operand values v carry an error d (the
